@@ -16,8 +16,23 @@ EXTENDS Loc
 \* re-evaluating with Devs \ {D}.
 \*   "RgPt"     Join drops a Point that abuts the end of the preceding Range
 \*   "BwRev"    Between(g).Reverse(L) = Between(L-1-g) instead of L-g
-\*   "BwOrigin" Rotate leaves a site at gap 0 where it was
+\*   "BwOrigin" Expand(0,n), used to re-origin a whole table (Rotate, guest
+\*              features of Insert/Embed, later pieces of Concat), leaves a
+\*              site at gap 0 where it was (Between.Expand is pinned by
+\*              TestLocationShift/TestLocationExpand)
+\*   "WrapSlice" a wrap-around Slice is Rotate + Slice: a range that the
+\*              rotation splits and whose leading piece is then cut off
+\*              entirely loses the partial marker of that end
 CONSTANT Devs
+
+\* input predicate of "WrapSlice": window [a1,L)+[0,b1), some range part
+\* s..e with s < a1 < e (split by the rotation) and b1 <= s (piece [s,a1) cut)
+RECURSIVE WrapSplitPart(_, _, _)
+WrapSplitPart(t, a1, b1) ==
+  CASE t.k = "rg" -> t.s < a1 /\ a1 < t.e /\ b1 <= t.s
+    [] t.k \in {"jn", "od"} -> \E j \in 1..Len(t.xs) : WrapSplitPart(t.xs[j], a1, b1)
+    [] t.k = "cp" -> WrapSplitPart(t.x, a1, b1)
+    [] OTHER -> FALSE
 
 (***************************************************************************)
 (* LocationList.Push / Join / Order   (location.go 587-726, 824-853)       *)
@@ -122,7 +137,7 @@ NormalizeLoc(t, L) ==
                   e2 == ((t.e - 1) % L) + 1
               IN IF s2 < e2 THEN Rg(s2, e2, t.p5, t.p3)
                  ELSE JoinC(<<Rg(s2, L, t.p5, FALSE), Rg(0, e2, FALSE, t.p3)>>)
-    [] t.k = "am" -> Am(t.s % L, t.e % L)
+    [] t.k = "am" -> Am(t.s % L, ((t.e - 1) % L) + 1)
     [] t.k = "jn" -> JoinC([j \in 1..Len(t.xs) |-> NormalizeLoc(t.xs[j], L)])
     [] t.k = "od" -> OrderC([j \in 1..Len(t.xs) |-> NormalizeLoc(t.xs[j], L)])
     [] t.k = "cp" -> Cp(NormalizeLoc(t.x, L))
@@ -153,6 +168,20 @@ OriginToEnd(t, L) ==
 RotLoc(t, n, L) ==
   NormalizeLoc(ExpandLoc(IF "BwOrigin" \in Devs \/ n = 0 THEN t ELSE OriginToEnd(t, L), 0, n), L)
 
+\* offsetting a whole table by n (guest features in Insert/Embed, later pieces
+\* in Concat): the code uses Expand(0, n), which leaves a site at gap 0 behind
+RECURSIVE AddAll(_, _)
+AddAll(t, n) ==
+  CASE t.k = "bw" -> Bw(t.p + n)
+    [] t.k = "pt" -> Pt(t.p + n)
+    [] t.k = "rg" -> Rg(t.s + n, t.e + n, t.p5, t.p3)
+    [] t.k = "am" -> Am(t.s + n, t.e + n)
+    [] t.k = "jn" -> JoinC([j \in 1..Len(t.xs) |-> AddAll(t.xs[j], n)])
+    [] t.k = "od" -> OrderC([j \in 1..Len(t.xs) |-> AddAll(t.xs[j], n)])
+    [] t.k = "cp" -> Cp(AddAll(t.x, n))
+    [] OTHER -> t
+OffsetLoc(t, n) == IF "BwOrigin" \in Devs \/ n = 0 THEN ExpandLoc(t, 0, n) ELSE AddAll(t, n)
+
 ComplementLoc(t) == IF t.k = "cp" THEN t.x ELSE Cp(t)
 
 (***************************************************************************)
@@ -171,7 +200,8 @@ AsComplete(t) ==
 Span(t) ==
   CASE t.k = "bw" -> <<t.p, t.p>>
     [] t.k = "pt" -> <<t.p, t.p + 1>>
-    [] OTHER      -> <<t.s, t.e>>
+    [] t.k \in {"rg", "am"} -> <<t.s, t.e>>
+    [] OTHER      -> <<0, 0>>     \* nil / unknown values (reachable through defects)
 
 RangeWithin(s, e, l, u) ==
   LET s1 == IMin(s, e)  e1 == IMax(s, e)  l1 == IMin(l, u)  u1 == IMax(l, u)
@@ -210,6 +240,8 @@ Less(a, b) ==
   ELSE IF b.k = "cp" THEN Less(a, b.x)
   ELSE IF a.k \in {"jn", "od"} THEN \E j \in 1..Len(a.xs) : Less(a.xs[j], b)
   ELSE IF b.k \in {"jn", "od"} THEN \A j \in 1..Len(b.xs) : Less(a, b.xs[j])
+  ELSE IF a.k \notin {"bw", "pt", "rg", "am"} THEN FALSE
+  ELSE IF b.k \notin {"bw", "pt", "rg", "am"} THEN TRUE
   ELSE LET c == RangeCompare(Span(a)[1], Span(a)[2], Span(b)[1], Span(b)[2])
        IN IF c # 0 THEN c < 0 ELSE NPartial(a) < NPartial(b)
 
